@@ -29,6 +29,7 @@ import DateutilVerif.Proofs.RRuleYM
 import DateutilVerif.Proofs.RRuleWeekly
 import DateutilVerif.Proofs.RRuleEaster
 import DateutilVerif.Proofs.RRuleNth
+import DateutilVerif.Proofs.RRuleValid
 
 namespace C01
 open RRule Cal RRule.Tables
@@ -187,6 +188,16 @@ theorem iter_strictMono (a : Args) (r : Rule) (h : construct a = .ok r) (hi : 1 
     (hf : 0 ≤ a.freq ∧ a.freq ≤ 6) (n : Nat) :
     (iter r n).1.Pairwise (fun x y => x.secs < y.secs) :=
   iter_strictMono_all a r h hi hw hv hf n
+
+/-- **real datetimes, strictly increasing at the `datetime` level** — all seven frequencies, every
+    constructed rule: every yielded value went through a successful `date.fromordinal` (ordinal in
+    1..3652059) and carries a valid wall time of the period's time set, so it is a valid `datetime`
+    with whole seconds; and the `datetime`s themselves are strictly increasing. -/
+theorem iterDT_strictMono_valid (a : Args) (r : Rule) (h : construct a = .ok r) (hi : 1 ≤ a.interval)
+    (hw : 0 ≤ a.wkst.getD 0 ∧ a.wkst.getD 0 ≤ 6) (hv : a.dtstart.Valid)
+    (hf : 0 ≤ a.freq ∧ a.freq ≤ 6) (n : Nat) :
+    (iterDT r n).1.Pairwise (fun s t => s.toMicros < t.toMicros) ∧ ∀ t ∈ (iterDT r n).1, t.Valid ∧ t.us = 0 :=
+  RRule.iterDT_strictMono_valid a r h hi hw hv hf n
 
 /-- **whole seconds**: every yielded datetime has `microsecond = 0` (the tzinfo is the rule's
     opaque tag `r.tz`, attached to every value by construction) -/
